@@ -218,6 +218,49 @@ func vstubFlush(w *bufio.Writer) error {
 
 func vstubCommand(name string, arg ...string) *exec.Cmd { return &exec.Cmd{Path: name} }
 
+// os.ReadFile: the whole content, or an error
+func vstubReadFile(name string) ([]byte, error) {
+	st := vFS(name)
+	if !st.exists {
+		return nil, errors.New("no such file")
+	}
+	b := []byte(st.content)
+	vTagBuf(b, st.content)
+	return b, nil
+}
+
+// os.WriteFile: create/truncate, write, close - NOT atomic: a crash in the middle leaves a prefix
+func vstubWriteFile(name string, data []byte, perm os.FileMode) error {
+	if vChoice("writefile.fails", 2) == 1 {
+		return errors.New("write failed")
+	}
+	st := vFS(name)
+	st.exists, st.content = true, ""
+	f := &os.File{}
+	vHandles[f] = &vHandle{name: name, writing: true}
+	st.content = string(data)
+	vCrashPoint("writefile")
+	vHandles[f].closed = true
+	return nil
+}
+
+// Cmd.Output / CombinedOutput: what the disassembler printed, and how it ended
+func vstubCmdOutput(c *exec.Cmd) ([]byte, error) {
+	saved := c.Stdout
+	var w bufio.Writer
+	c.Stdout = &w
+	vWriters[&w] = nil
+	vPending[&w] = ""
+	err := vstubCmdRun(c)
+	out := vPending[&w]
+	delete(vPending, &w)
+	delete(vWriters, &w)
+	c.Stdout = saved
+	b := []byte(out)
+	vTagBuf(b, out)
+	return b, err
+}
+
 // the disassembler: prints vDump to cmd.Stdout, or a prefix of it and fails
 func vstubCmdRun(c *exec.Cmd) error {
 	vRunCalls++
